@@ -286,78 +286,51 @@ def _support(X):
     return int(min(X.shape[0] - 1, np.linalg.matrix_rank(Xc)))
 
 
-def _probe(fn, timeout=20.0):
-    """Run fn() in a forked child and report how it ends: 'ok', 'LinAlgError', 'error' or 'hang'.
-    A fit that hands NaN to LAPACK's lstsq may never return and cannot be interrupted by a signal handler (the
-    engine's per-case alarm is only served between bytecodes); a forked child can be killed."""
-    import os
-    import select
-    import signal
-    r, w = os.pipe()
-    pid = os.fork()
-    if pid == 0:
-        code = b"e"
-        try:
-            os.close(r)
-            signal.alarm(0)
-            try:
-                fn()
-                code = b"o"
-            except np.linalg.LinAlgError:
-                code = b"l"
-            except BaseException:
-                code = b"e"
-            os.write(w, code)
-        finally:
-            os._exit(0)
-    os.close(w)
-    data = b"h"
-    try:
-        ready, _, _ = select.select([r], [], [], timeout)
-        if ready:
-            data = os.read(r, 1) or b"e"
-    finally:
-        if data == b"h":
-            try:
-                os.kill(pid, signal.SIGKILL)
-            except OSError:
-                pass
-        os.close(r)
-        os.waitpid(pid, 0)
-    return {b"o": "ok", b"l": "LinAlgError", b"e": "error", b"h": "hang"}[data]
+def _install_lstsq_guard():
+    """LAPACK's gelsd (numpy.linalg.lstsq) either raises LinAlgError("SVD did not converge") or NEVER RETURNS when it is
+    handed NaN, and a C-level loop cannot be interrupted by the engine's per-case alarm (workers were lost to the hard
+    timeout).  CP_PLSR hands NaN scores to lstsq whenever a loading is 0/0.  Through the backend's own registration API
+    (nothing under the repository is touched) lstsq is wrapped so that non-finite input always takes the LinAlgError
+    exit; finite input goes to the unchanged numpy routine."""
+    from tensorly.backend.numpy_backend import NumpyBackend
+    orig = np.linalg.lstsq
+
+    def lstsq(a, b, *args, **kw):
+        if not (np.all(np.isfinite(a)) and np.all(np.isfinite(b))):
+            raise np.linalg.LinAlgError("SVD did not converge in Linear Least Squares (non-finite input; verification guard)")
+        return orig(a, b, *args, **kw)
+
+    NumpyBackend.register_method("lstsq", lstsq)
 
 
-def _risky(case, X):
-    """data classes in which a loading can be exactly 0/0 (NaN scores handed to lstsq): exact data (integers, dead
-    slices) or more components than varying features / samples allow"""
-    return bool(case.get("xkind") == "int" or case.get("dead") or case.get("exact")
-                or case["ncomp"] > min(X.shape[0] - 1, _peff(list(X.shape[1:]), case.get("dead"))))
+_install_lstsq_guard()
 
 
-def _guard(case, X, Y, kw):
-    """counted, explicit rules applied BEFORE the real fit is executed in this process"""
-    if (case.get("xkind") == "int" or case.get("dead") or case.get("exact")) and case["ncomp"] > _support(X):
-        # integer data / data with dead slices are exhausted *exactly*: the next loading is 0/0 and the library hands NaN
-        # scores to LAPACK's lstsq, which raises LinAlgError or does not return at all (uninterruptible) -> not executed
+def _exact(case):
+    return bool(case.get("xkind") == "int" or case.get("dead") or case.get("exact"))
+
+
+def _fit_guarded(e, X, Y, case, lays_case, strict=False):
+    """fit with the explicit, counted domain rules for 0/0 loadings"""
+    if _exact(case) and case["ncomp"] > _support(X):
+        # integer data / data with dead slices are exhausted *exactly*: the next loading is 0/0 -> not executed
         discard("components not supported by the centred (integer / dead-slice) data")
-    if _risky(case, X):
-        st_ = _probe(lambda: CP_PLSR(case["ncomp"], **kw).fit(_L(X, case, 0), _L(Y, case, 1)))
-        if st_ == "hang":
-            discard("fit does not return on degenerate data (NaN handed to LAPACK lstsq); probed in a child process")
-
-
-def _plsr_fit(case, X, Y):
-    kw = {} if case["iters"] is None else {"n_iter_max": case["iters"]}
-    e = CP_PLSR(case["ncomp"], **kw)
-    _guard(case, X, Y, kw)
     try:
-        e.fit(_L(X, case, 0), _L(Y, case, 1))
+        e.fit(_L(X, lays_case, 0), _L(Y, lays_case, 1))
     except np.linalg.LinAlgError:
-        # exactly exhausted data (integer X): the loading is 0/0 and lstsq on the NaN scores raises
         if case["ncomp"] > _support(X):
             discard("components not supported by the centred data (fit raised LinAlgError)")
+        if _exact(case) and not strict:
+            # integer / 0-1 / dead-slice data: the PLS recursion can terminate *exactly* (X_res^T y_res = 0, tied spectrum)
+            # before the rank of the centred data is used up; indistinguishable from outside, hence not judged
+            discard("exact early termination of the PLS recursion on integer / dead-slice data (fit raised LinAlgError)")
         raise
     return e
+
+
+def _plsr_fit(case, X, Y, strict=False):
+    kw = {} if case["iters"] is None else {"n_iter_max": case["iters"]}
+    return _fit_guarded(CP_PLSR(case["ncomp"], **kw), X, Y, case, case, strict=strict)
 
 
 def _bcast(a, shape, clause):
@@ -471,6 +444,7 @@ def _plsr_int_case(draw, tier):
     c = draw(_plsr_case(draw(st.sampled_from(["yvec", "ymat"])), tier))
     c["pdtype"] = draw(st.sampled_from(["int64", "int32", "uint8", "bool"]))
     c["fit_int"] = draw(st.sampled_from(["X", "X", "Y"]))
+    c["scale"] = 1.0          # values are rounded to integers: unit scale
     return c
 
 
@@ -507,13 +481,10 @@ def o_plsr_int(case):
     # 0/1 data with 4-15 samples often have tied spectra: the PLS recursion then terminates after fewer components than
     # the rank supports (X_res^T y_res = 0 exactly) -> one component only for bool
     ci = dict(case, xkind="int", exact=True, ncomp=1 if case["pdtype"] == "bool" else case["ncomp"])
-    try:
-        ef = _plsr_fit(ci, Xf, Yf)
-    except np.linalg.LinAlgError:
-        # reference behaviour = the float fit of the same integer values; if that one already fails the data are
-        # degenerate for PLS (exact early termination) and the comparison is void
-        discard("float fit of the same integer values fails too (exact early termination of the PLS recursion)")
-    ei = _plsr_fit(ci, Xi, Yi)
+    # reference behaviour = the float fit of the same integer values; if that one already fails the data are degenerate
+    # for PLS (counted discard inside _plsr_fit) and the comparison is void; the integer fit must then succeed as well
+    ef = _plsr_fit(ci, Xf, Yf)
+    ei = _plsr_fit(ci, Xi, Yi, strict=True)
     case = ci
     a = _plsr_attrs(ef, case, "plsr/int/fit-float", X=Xf)
     b = _plsr_attrs(ei, case, "plsr/int/fit-integer", X=Xf)
@@ -769,8 +740,7 @@ def o_plsr_history(case):
         if op.startswith("fit:"):
             cur = op[4:]
             d, X, Y, Xnew = data[cur]
-            _guard(dict(d, lays=case["lays"]), X, Y, kw)
-            e.fit(_L(X, case, 0), _L(Y, case, 1))
+            _fit_guarded(e, X, Y, d, case)
             last = None
             continue
         d, X, Y, Xnew = data[cur]
